@@ -188,6 +188,9 @@ def monitor_for(scenarios_exp):
             if line.startswith("panic") or line == "<no-output>":
                 out.append((i, "harness-crash", f"`{ops[i]}` -> {line}"))
                 continue
+            if line.startswith("RUNAWAY"):
+                out.append((i, "broker-never-quiet", f"`{ops[i]}`: {line}"))
+                break
             if isinstance(exp, str):
                 if line != exp:
                     out.append((i, rule, f"`{ops[i]}` = {line}; the live sessions, their subscriptions and the retained messages are {exp}"))
@@ -207,7 +210,7 @@ def monitor_for(scenarios_exp):
     return mon
 
 
-def gen_converged(rng, nn, mounts, nops, weights=None):
+def gen_converged(rng, nn, mounts, nops, weights=None, retain_p=0.3, clear_p=0.3):
     """a random converged scenario; returns Scenario"""
     sc = Scenario(rng, nn, mounts)
     w = {"connect": 2, "sub": 4, "unsub": 1, "pub": 6, "end": 1, "state": 0.5}
@@ -235,8 +238,8 @@ def gen_converged(rng, nn, mounts, nops, weights=None):
             sc.unsub(c, fl)
         elif k == "pub":
             c = rng.choice(alive)
-            retain = 1 if rng.random() < 0.3 else 0
-            payload = rng.choice(["01", "0203", "ff"]) if not (retain and rng.random() < 0.3) else "-"
+            retain = 1 if rng.random() < retain_p else 0
+            payload = rng.choice(["01", "0203", "ff"]) if not (retain and rng.random() < clear_p) else "-"
             sc.pub(c, rng.choice(TOPICS), payload, rng.choice([0, 1, 1, 2]), retain, 0)
         elif k == "end":
             if len(alive) > 1:
@@ -258,7 +261,7 @@ def run_scenarios(c, name, scenarios, samples, extra_stats=None):
     st = {"cases": len(scenarios), "nontrivial": len(scenarios)}
     if extra_stats:
         st.update(extra_stats)
-    c.run_suite(Suite(name, "broker", ops, monitor_for(exp), st, resets=("reset",), retry_args=["200"]), timeout=3000)
+    c.run_suite(Suite(name, "broker", ops, monitor_for(exp), st, resets=("reset",), retry_args=["200"]), timeout=900 if c.tier == "quick" else 7200)
     samples.append({"suite": name, "ops": ops[:14]})
 
 
@@ -274,7 +277,7 @@ def add_c07_suites(c, samples):
     n = 10 if c.tier == "quick" else 120
     scs = []
     for _ in range(n):
-        sc = gen_converged(rng, rng.choice([1, 2]), 1, rng.choice([10, 16]), {"pub": 7, "sub": 6, "connect": 3})
+        sc = gen_converged(rng, rng.choice([1, 2]), 1, rng.choice([10, 16]), {"pub": 7, "sub": 6, "connect": 3}, retain_p=0.65, clear_p=0.4)
         scs.append(sc)
     run_scenarios(c, "broker-retained-replay", scs, samples)
 
@@ -365,14 +368,16 @@ def gen_faults(rng, nn):
     sc = Scenario(rng, nn, 1)
     pubr = sc.connect(node=0)
     subs = []
+    common = rng.random() < 0.7
     for n in range(nn):
-        for _ in range(rng.choice([0, 1, 1, 2])):
+        for k in range(rng.choice([0, 1, 1, 2]) if not common else rng.choice([1, 1, 2])):
             c = sc.connect(node=n)
-            sc.sub(c, [(rng.choice(["t/#", "t/a", "+/a", "u"]), rng.choice([0, 1]))])
+            f = "t/#" if (common and k == 0) else rng.choice(["t/#", "t/a", "+/a", "u"])
+            sc.sub(c, [(f, rng.choice([0, 1]))])
             subs.append(c)
     for _ in range(rng.choice([3, 5, 8])):
         # choose a fault pattern
-        down = [n for n in range(1, nn) if rng.random() < 0.35]
+        down = [n for n in range(1, nn) if rng.random() < 0.45]
         logfail = [n for n in range(nn) if rng.random() < 0.25]
         for n in range(1, nn):
             sc.ops.append(f"unreachable {n} {1 if n in down else 0}")
@@ -396,8 +401,12 @@ def gen_faults(rng, nn):
         if qos == 2:
             sc.emit(f"pub {pubr} {topic} {payload} 2 0 0 {mid}", {pubr: [f"pubrec({mid})"]}, "qos2-forwarded-early")
             if rng.random() < 0.3:
-                # a repeated PUBLISH during the open handshake ends the session in this broker: do not send it;
-                pass
+                # the client never sends PUBREL: the handshake times out; nothing may be forwarded, now or later
+                sc.emit("expire 0", {}, "qos2-forwarded-on-timeout")
+                sc.emit(f"rawack {pubr} pubrel {mid}", {}, "qos2-forwarded-after-timeout")
+                for n in range(nn):
+                    sc.ops.append(f"log {n}")
+                continue
             exp = {k: list(v) for k, v in deliv.items()}
             if not failed:
                 exp.setdefault(pubr, []).append(f"pubcomp({mid})")
@@ -503,9 +512,14 @@ def gen_lifecycle(rng, nn, mounts=1, takeover=0.25, fine_gossip=False):
             if fine_gossip and nn > 1:
                 a, b = rng.sample(range(nn), 2)
                 sc.ops.append(f"bc {a} {b}")
-        if fine_gossip and nn > 1 and rng.random() < 0.5:
+        if fine_gossip and nn > 1 and rng.random() < 0.6:
             a, b = rng.sample(range(nn), 2)
-            sc.ops.append(f"bc {a} {b}")
+            if rng.random() < 0.5:
+                sc.ops.append(f"bc {a} {b}")
+            else:
+                # one payload overtakes the others on this link (a removal may arrive before the creation it removes)
+                for _ in range(rng.choice([1, 2, 3])):
+                    sc.ops.append(f"bcone {a} {b} {rng.choice([0, 1, 1, 2, 3, 5])}")
     if fine_gossip:
         sc.ops.append("gossip")
         sc.ops.append("gossip")
@@ -528,9 +542,174 @@ def add_timing_suites(c, samples):
     return
 
 
+def gen_nodefail(rng, clean):
+    """a session with a will on node 1, watchers on node 0 (and 2); the session ends cleanly or stays; then node 1 fails"""
+    nn = rng.choice([2, 3])
+    sc = Scenario(rng, nn, rng.choice([1, 2]))
+    wt = rng.choice(["w/t", "w//t", "/w", "w/t/"])
+    watchers = []
+    for n in [0] + ([2] if nn == 3 else []):
+        for m in sc.mounts:
+            w = sc.connect(node=n, mount=m)
+            sc.sub(w, [(rng.choice(["#", wt if wt else "#", "+/+", "w/#"]), rng.choice([0, 1]))])
+            watchers.append(w)
+    dying = sc.connect(node=1, mount=sc.mounts[0], will=(wt, rng.choice(["6279", "00"]), rng.choice([0, 1]), 0))
+    other = sc.connect(node=1, mount=sc.mounts[-1], will=None)
+    sc.sub(dying, [("x", 1)])
+    if clean:
+        sc.end(dying, "disconnect")
+    v = sc.clients[dying]
+    # node 1 fails: its clients lose their connections; each survivor publishes the wills of the listed sessions of node 1
+    exp = {}
+    for c_, cv in sc.clients.items():
+        if cv["alive"] and cv["node"] == 1:
+            exp[c_] = ["CLOSED"]
+    if not clean:
+        for w in watchers:
+            wv = sc.clients[w]
+            if wv["mount"] != v["mount"]:
+                continue
+            for f, q in wv["subs"].items():
+                if mqtt_match(f.split("/"), wt.split("/")):
+                    exp.setdefault(w, []).append(pubstr(wt, v["will"][1], q, 0, 0))
+    for c_, cv in sc.clients.items():
+        if cv["node"] == 1:
+            cv["alive"] = False
+    sc.emit("nodefail 1", exp, "will-on-node-failure")
+    for w in watchers:
+        sc.ops.append(f"ackall {w}")
+    # the failed peer's subscriptions are gone at once, its session records after the 3 s grace period
+    sc.ops.append("idle 3200")
+    sc.ops.append("gossip")
+    for n in range(nn):
+        if n != 1:
+            ss = sorted(f"S,S{c_},{cv['cid']},{cv['mount']},{cv['node'] + 1},{sc._will(cv)}" for c_, cv in sc.clients.items() if cv["alive"])
+            us = sorted(f"U,S{c_},{cv['mount']}/{f},{cv['node'] + 1},{q}" for c_, cv in sc.clients.items() if cv["alive"] for f, q in cv["subs"].items())
+            reg = sorted("S" + c_ for c_, cv in sc.clients.items() if cv["alive"] and cv["node"] == n)
+            sc.ops.append(f"state {n}")
+            sc.exp[len(sc.ops) - 1] = ("[" + " ".join(ss) + "] [" + " ".join(us) + "] [] [" + " ".join(reg) + "]", "traces-of-failed-node")
+    return sc
+
+
 def add_nodefail_suites(c, samples):
-    return
+    n = 2 if c.tier == "quick" else 16
+    scs = []
+    for k in range(n):
+        scs.append(gen_nodefail(c.rng, clean=(k % 2 == 1)))
+    run_scenarios(c, "node-failure", scs, samples)
 
 
 def add_reallog_suites(c, samples):
     return
+
+
+# ------------------------------------------------------------------------------------------------ corpus
+# Hand-written scenarios for defect classes met so far; they run first in the checks that own them.
+
+def corpus_slow_qos2_then_next(rng):
+    """a QoS 2 subscriber that is slow to PUBCOMP (PUBREL times out and is repeated) must still get the next message"""
+    sc = Scenario(rng, 1, 1)
+    p = sc.connect(node=0)
+    s = sc.connect(node=0)
+    sc.sub(s, [("a/b", 2)])
+    sc.mid += 1
+    sc.emit(f"pub {p} a/b 01 1 0 0 {sc.mid}", {p: [f"puback({sc.mid})"], s: [pubstr("a/b", "01", 2, 0, 0)]}, "delivery")
+    sc.emit(f"ack {s} pubrec #1", {s: ["pubrel"]}, "qos2-phase")
+    sc.emit("expire 0", {s: ["pubrel"]}, "retransmission")
+    sc.emit("expire 0", {s: ["pubrel"]}, "retransmission")
+    sc.mid += 1
+    sc.emit(f"pub {p} a/b 02 1 0 0 {sc.mid}", {p: [f"puback({sc.mid})"], s: [pubstr("a/b", "02", 2, 0, 0)]}, "acked-publish-not-delivered")
+    sc.emit(f"ack {s} pubcomp #1", {}, "ack")
+    sc.mid += 1
+    sc.emit(f"pub {p} a/b 03 1 0 0 {sc.mid}", {p: [f"puback({sc.mid})"], s: [pubstr("a/b", "03", 2, 0, 0)]}, "acked-publish-not-delivered")
+    sc.ops.append(f"ackall {s}")
+    sc.ops.append("pool 0")
+    return sc
+
+
+def corpus_first_message(rng):
+    """the very first message a node stores (log offset 0) is delivered"""
+    sc = Scenario(rng, 1, 1)
+    p = sc.connect(node=0)
+    s = sc.connect(node=0)
+    sc.sub(s, [("#", 1)])
+    sc.pub(p, "first", "aa", 1)
+    sc.pub(p, "second", "bb", 1)
+    return sc
+
+
+def corpus_inbound_outbound_same_id(rng):
+    """a client with an open inbound QoS 2 handshake under id n still receives a delivery that draws id n"""
+    sc = Scenario(rng, 1, 1)
+    p = sc.connect(node=0)
+    c = sc.connect(node=0)
+    sc.sub(c, [("t", 1)])
+    # c opens an inbound handshake under id 1 and does not release it yet
+    sc.emit(f"pub {c} other 09 2 0 0 1", {c: ["pubrec(1)"]}, "qos2-forwarded-early")
+    sc.mid += 1
+    sc.emit(f"pub {p} t 01 1 0 0 {sc.mid}", {p: [f"puback({sc.mid})"], c: [pubstr("t", "01", 1, 0, 0)]}, "acked-publish-not-delivered")
+    sc.emit(f"ackall {c}", {}, "ack")
+    sc.emit(f"rawack {c} pubrel 1", {c: ["pubcomp(1)"]}, "delivery")
+    return sc
+
+
+def corpus_wrong_type_ack(rng):
+    """an acknowledgement of the wrong type leaves the exchange open: it is still retransmitted and can still complete"""
+    sc = Scenario(rng, 1, 1)
+    p = sc.connect(node=0)
+    s = sc.connect(node=0)
+    sc.sub(s, [("t", 1)])
+    sc.mid += 1
+    sc.emit(f"pub {p} t 01 1 0 0 {sc.mid}", {p: [f"puback({sc.mid})"], s: [pubstr("t", "01", 1, 0, 0)]}, "delivery")
+    sc.emit(f"ack {s} pubcomp #1", {}, "wrong-type-disturbed")
+    sc.emit("expire 0", {s: [pubstr("t", "01", 1, 0, 0)]}, "retransmission")
+    sc.emit(f"ack {s} puback #1", {}, "ack")
+    sc.emit("expire 0", {}, "retransmission-after-completion")
+    sc.ops.append("pool 0")
+    return sc
+
+
+def corpus_removal_overtakes_creation(rng):
+    """the gossip of a session's end reaches a peer before the gossip of its beginning: nothing of it may stay listed"""
+    sc = Scenario(rng, 2, 1)
+    sc.ops.append("connect c1 0 idA mp 60 -")
+    sc.ops.append("sub c1 5 a/#:1,b:0")
+    sc.ops.append("disconnect c1")
+    # pending 0->1: [S-create, U-create a/#, U-create b, U-delete a/#, U-delete b, S-delete]
+    for k in (3, 3, 3):
+        sc.ops.append(f"bcone 0 1 {k}")
+    sc.ops.append("bc 0 1")
+    sc.ops.append("state 1")
+    sc.exp[len(sc.ops) - 1] = ("[] [] [] []", "ended-session-still-listed")
+    sc.ops.append("state 0")
+    sc.exp[len(sc.ops) - 1] = ("[] [] [] []", "ended-session-still-listed")
+    return sc
+
+
+def corpus_takeover_seen_out_of_order(rng):
+    """X connects on A, B learns of it, X reconnects on B; a third node sees B's gossip before A's: it must resolve X to
+    the new session only"""
+    sc = Scenario(rng, 3, 1)
+    sc.ops.append("connect c1 0 idX mp 60 -")
+    sc.ops.append("bc 0 1")
+    sc.ops.append("connect c2 1 idX mp 60 -")
+    sc.ops.append("bc 1 2")
+    sc.ops.append("bc 0 2")
+    sc.ops.append("bycid 2 mp idX")
+    sc.exp[len(sc.ops) - 1] = ("Sc2", "client-id-resolves-to-displaced-session")
+    sc.ops.append("state 2")
+    sc.exp[len(sc.ops) - 1] = ("[S,Sc2,idX,mp,2,-] [] [] []", "displaced-session-still-listed")
+    sc.ops.append("bc 1 0")
+    sc.ops.append("ping c1")
+    sc.exp[len(sc.ops) - 1] = ({"c1": ["CLOSED"]}, "displaced-session-still-served")
+    sc.ops.append("gossip")
+    sc.ops.append("state 0")
+    sc.exp[len(sc.ops) - 1] = ("[S,Sc2,idX,mp,2,-] [] [] []", "displaced-session-still-listed")
+    return sc
+
+
+def corpus(rng, names):
+    table = {"slow-qos2": corpus_slow_qos2_then_next, "first-message": corpus_first_message,
+             "inbound-outbound-id": corpus_inbound_outbound_same_id, "wrong-type-ack": corpus_wrong_type_ack,
+             "removal-overtakes-creation": corpus_removal_overtakes_creation, "takeover-out-of-order": corpus_takeover_seen_out_of_order}
+    return [table[n](rng) for n in names]
